@@ -74,7 +74,7 @@ ASSUMPTIONS = [
     "the global `random` module (LeaderNode picks its anti-entropy peer with random.choice) is seeded from the case",
     "ReplicatedStore is driven through one coordinator instance, as in its documentation",
 ]
-MUST_OBSERVE = ["acks_checked", "quiescence_checks", "chain_reads_checked"]
+MUST_OBSERVE = ["sync_acks_checked", "semi_sync_acks_checked", "chain_acks_checked", "chain_reads_checked", "craq_reads_served_locally", "ml_fixpoints_reached", "quiescence_checks"]
 
 ML_MAX_ROUNDS = 60
 
@@ -152,11 +152,6 @@ def gen_net(rng: random.Random, names: list[str], types: list[str]) -> dict:
     return spec
 
 
-def _mesh(nodes: list, script: DelayScript) -> Network:
-    net = Network(name="net")
-    return net
-
-
 def _add_mesh(net: Network, nodes: list, script: DelayScript):
     for a in nodes:
         for b in nodes:
@@ -204,7 +199,7 @@ def gen_lat(rng: random.Random, n: int) -> list[list[float]]:
 
 
 def n_ops_for(rng: random.Random, tier: str) -> int:
-    return rng.choice([2, 3, 4, 6, 8, 12] if tier == "quick" else [2, 3, 4, 6, 8, 12, 16, 24])
+    return rng.choice([2, 3, 4, 6, 8, 12, 16] if tier == "quick" else [2, 3, 4, 6, 8, 12, 16, 24, 32])
 
 
 def gen_ops(rng, tier, n_nodes, keys, write_nodes, read_nodes, grid, p_write=0.65, bad_write_nodes=()):
@@ -369,6 +364,19 @@ def _arrivals_for(mon: Mon, node: int, etype: str, key: str, upto_idx: int | Non
     ]
 
 
+def _reorder_shape(mon: Mon, node: int, etype: str, key: str, upto_idx: int | None = None) -> str:
+    """Shape for a replica that saw same-key replication messages out of send order.
+
+    The anticipated defect is *apply in arrival order*: the replica then holds the value of the last arrived message
+    whose store write has completed.  Anything else under reordering is a different mechanism and gets its own key.
+    """
+    j = mon.kidx[key]
+    applied = [a[4].get("value") for a in _arrivals_for(mon, node, etype, key, upto_idx) if a[4].get("value") in mon.held[node][j]]
+    if applied and mon.cur[node][j] == applied[-1]:
+        return "same-key-replication-messages-reordered"
+    return "same-key-replication-messages-reordered-not-arrival-order-apply"
+
+
 def _mark_nontrivial(res: Result, mon: Mon, etype: str, order_of) -> None:
     """Non-trivial: some receiver got two replication messages for one key out of send order."""
     per: dict[tuple, list] = {}
@@ -433,7 +441,7 @@ def run_pb(case: dict) -> Result:
         if seq not in arr:
             return "replicate-not-yet-arrived"
         if _inverted(arr):
-            return "same-key-replication-messages-reordered"
+            return _reorder_shape(mon, b, "Replicate", key, mon.idx)
         if value not in mon.held[b][mon.kidx[key]]:
             return "replicate-arrived-apply-pending"
         return "in-order-delivery"
@@ -456,6 +464,7 @@ def run_pb(case: dict) -> Result:
         if mode == "ASYNC":
             return
         res.count("acks_checked")
+        res.count("sync_acks_checked" if mode == "SYNC" else "semi_sync_acks_checked")
         behind = []
         for b in range(1, nb + 1):
             cv = mon.cur[b][mon.kidx[key]]
@@ -495,7 +504,7 @@ def run_pb(case: dict) -> Result:
         ref = mon.cur[0][j]
         for b in range(1, nb + 1):
             if mon.cur[b][j] != ref:
-                shape = "same-key-replication-messages-reordered" if _inverted(seqs_at(b, k)) else "in-order-delivery"
+                shape = _reorder_shape(mon, b, "Replicate", k) if _inverted(seqs_at(b, k)) else "in-order-delivery"
                 once.add(
                     "divergence-at-quiescence",
                     "BackupNode",
@@ -565,7 +574,7 @@ def run_chain(case: dict) -> Result:
         if seq not in arr:
             return "propagate-not-yet-arrived"
         if _inverted(arr):
-            return "same-key-replication-messages-reordered"
+            return _reorder_shape(mon, i, "Propagate", key, mon.idx)
         if value not in mon.held[i][mon.kidx[key]]:
             return "propagate-arrived-apply-pending"
         return "in-order-delivery"
@@ -619,12 +628,17 @@ def run_chain(case: dict) -> Result:
                 )
             elif o["node"] != tail:
                 res.count("craq_reads_checked")
+                fwd = any(a[2] == tail and a[3] == "Read" and a[4].get("reply_future") is op["fut"] for a in mon.arrivals)
+                res.count("craq_reads_forwarded_to_tail" if fwd else "craq_reads_served_locally")
+                if not fwd and any(p["o"]["op"] == "w" and p["o"]["key"] == key for p in mon.pending):
+                    res.count("craq_local_reads_with_same_key_write_in_flight")
             return
         if not isinstance(rep, dict) or rep.get("status") != "ok":
             res.count("writes_rejected")
             return
         res.count("writes_acked")
         res.count("acks_checked")
+        res.count("chain_acks_checked")
         val = o["val"]
         pos = mon.pos(0, key)
         if val not in pos:
@@ -667,7 +681,7 @@ def run_chain(case: dict) -> Result:
         ref = mon.cur[0][j]
         for i in range(1, n):
             if mon.cur[i][j] != ref:
-                shape = "same-key-replication-messages-reordered" if _inverted(seqs_at(i, k)) else "in-order-delivery"
+                shape = _reorder_shape(mon, i, "Propagate", k) if _inverted(seqs_at(i, k)) else "in-order-delivery"
                 once.add(
                     "divergence-at-quiescence",
                     "ChainNode",
@@ -683,7 +697,10 @@ def run_chain(case: dict) -> Result:
 
 
 def _lww_key(v: VersionedValue):
-    return (v.timestamp, v.writer_id)
+    # Total order used by the harness-supplied resolvers.  Two writes of one leader at one instant share
+    # (timestamp, writer); they are told apart by the writer's own vector-clock component (which a merged clock
+    # preserves), otherwise the merge function would keep whichever version a node saw first.
+    return (v.timestamp, v.writer_id, (v.vector_clock or {}).get(v.writer_id, 0))
 
 
 def _merge_fn(key, a: VersionedValue, b: VersionedValue) -> VersionedValue:
@@ -820,6 +837,8 @@ def run_ml(case: dict) -> Result:
         return res
     res.count("quiescence_checks")
     res.count("ml_fixpoints_reached")
+    if any(len(h) > 2 for i in range(n) for h in mon.hist[i]):
+        res.count("ml_fixpoints_after_overwrites")
     if not equal:
         for j, k in enumerate(keys):
             vals = [mon.cur[i][j] for i in range(n)]
@@ -986,7 +1005,25 @@ def _overlap(ops, log, o) -> bool:
 # shrinking: drop ops, then drop delay rules
 
 
+_known_keys = None
+
+
+def _known():
+    global _known_keys
+    if _known_keys is None:
+        from hsverif import findings as kf
+
+        _known_keys = {kf.key_of(e) for e in kf.for_property(PID) if e.get("status") == "known"}
+    return _known_keys
+
+
 def _shrink(case: dict, still_fails) -> dict:
+    """ddmin over the op list, then drop delay rules.  Cases whose first violation is a recorded mechanism are left
+    alone (their hand-minimised witnesses are pinned in known_findings.d/C17.json; shrinking a quarter of all cases
+    again on every run would cost more than the exploration itself)."""
+    r = FAMILIES[case_family(case)].run(case)
+    if r.violations and r.violations[0].key() in _known():
+        return case
     cur = dict(case)
 
     def fails_with(ops):
@@ -1005,6 +1042,10 @@ def _shrink(case: dict, still_fails) -> dict:
     return cur
 
 
+def case_family(case: dict) -> str:
+    return case["scheme"]
+
+
 FAMILIES = {
     "pb": Family("pb", gen_pb, run_pb, shrink=_shrink, case_timeout=30.0),
     "chain": Family("chain", gen_chain, run_chain, shrink=_shrink, case_timeout=30.0),
@@ -1013,6 +1054,6 @@ FAMILIES = {
 }
 
 BUDGET = {
-    "quick": {"pb": 1500, "chain": 1500, "ml": 600, "rstore": 300},
-    "thorough": {"pb": 40000, "chain": 40000, "ml": 12000, "rstore": 5000},
+    "quick": {"pb": 3000, "chain": 3000, "ml": 1200, "rstore": 400},
+    "thorough": {"pb": 120000, "chain": 120000, "ml": 40000, "rstore": 8000},
 }
